@@ -433,3 +433,48 @@ Proof.
 Qed.
 
 End UmountAll.
+
+(* ------------------------------------------------------------------ all commands *)
+Definition C04_hyp (c : cfgT) (w : wobs) (cmd : command) : bool :=
+  let m := layers_on_disk c (wo_fs w) in
+  wf_table (ks_tab (wo_ks w)) && wf_layers c m
+  && match cmd with
+     | CRename n _ | CRebase n _ => no_error_children m n
+     | CUmount n false => hyp_umount1 c (wo_fs w) m n
+     | CUmount [] true => roots_apart c m
+     | _ => true
+     end.
+
+Lemma view_fields c w e cmd um :
+  v_env (view_of_model c w e cmd um) = e /\ v_cmd (view_of_model c w e cmd um) = cmd
+  /\ v_users (view_of_model c w e cmd um) = um.
+Proof. unfold view_of_model. destruct (run _ _ _ _ _). auto. Qed.
+
+Theorem C04_model_proof : forall c w e cmd um, plain_env e = true -> C04_hyp c w cmd = true ->
+  C04.step_spec c w (view_of_model c w e cmd um) = true.
+Proof.
+  intros c w e cmd um He Hh. unfold C04_hyp in Hh. cbv zeta in Hh.
+  apply andb_true_iff in Hh as [Hh Hc]. apply andb_true_iff in Hh as [Hwf Hl].
+  assert (Htriv : forall cmd', (forall v, v_cmd v = cmd' -> v_env v = e ->
+                     C04.step_spec c w v = true) ->
+                   C04.step_spec c w (view_of_model c w e cmd' um) = true).
+  { intros cmd' H. destruct (view_fields c w e cmd' um) as (E1 & E2 & _). now apply H. }
+  destruct cmd as [ |n b0 cf|n fl|n n2|n n2|n|n|n all| |n| |s t ty fl d|t].
+  - apply Htriv. intros v E1 E2. unfold C04.step_spec. now rewrite E1, E2, He.
+  - apply Htriv. intros v E1 E2. unfold C04.step_spec. now rewrite E1, E2, He.
+  - now apply C04_remove_proof.
+  - now apply C04_rename_proof.
+  - now apply C04_rebase_proof.
+  - apply Htriv. intros v E1 E2. unfold C04.step_spec. now rewrite E1, E2, He.
+  - apply Htriv. intros v E1 E2. unfold C04.step_spec. now rewrite E1, E2, He.
+  - destruct all.
+    + destruct n as [|a r].
+      * apply C04_umount_all_proof; [exact He|exact Hwf|exact Hl|exact Hc].
+      * apply Htriv. intros v E1 E2. unfold C04.step_spec. now rewrite E1, E2, He.
+    + apply C04_umount1_proof; [exact He|exact Hwf|exact Hl|destruct n; exact Hc].
+  - apply Htriv. intros v E1 E2. unfold C04.step_spec. now rewrite E1, E2, He.
+  - apply Htriv. intros v E1 E2. unfold C04.step_spec. now rewrite E1, E2, He.
+  - apply Htriv. intros v E1 E2. unfold C04.step_spec. now rewrite E1, E2, He.
+  - apply Htriv. intros v E1 E2. unfold C04.step_spec. now rewrite E1, E2, He.
+  - apply Htriv. intros v E1 E2. unfold C04.step_spec. now rewrite E1, E2, He.
+Qed.
